@@ -294,9 +294,9 @@ CALLS = {
     "layer": (lambda lib: _rs3() + (lib.graph.Graph.linear(3),), lambda lib, R, S, g: lib.find_local_clifford_layer.find_local_clifford_layer(R, S, g)),
     "graph_lc": (lambda lib: (lib.graph.Graph.star(4), 0), lambda lib, g, v: g.local_complemented(v)),
     # the same 4-qubit state on two restricted connectivities (cross-configuration memory)
-    "prep4star": (lambda lib: (lib.stabilizer.Stabilizer(HELD4), "star"), lambda lib, s, c: lib.stabilizer_circuits.get_preparation_circuit(s, c)),
-    "prep4lin": (lambda lib: (lib.stabilizer.Stabilizer(HELD4), "linear"), lambda lib, s, c: lib.stabilizer_circuits.get_preparation_circuit(s, c)),
-    "readout4cycle": (lambda lib: (lib.stabilizer.Stabilizer(HELD4), "cycle"), lambda lib, s, c: lib.stabilizer_circuits.get_readout_circuit(s, c)),
+    "prep4star": (lambda lib: (lib.stabilizer.Stabilizer(list(HELD4)), "star"), lambda lib, s, c: lib.stabilizer_circuits.get_preparation_circuit(s, c)),
+    "prep4lin": (lambda lib: (lib.stabilizer.Stabilizer(list(HELD4)), "linear"), lambda lib, s, c: lib.stabilizer_circuits.get_preparation_circuit(s, c)),
+    "readout4cycle": (lambda lib: (lib.stabilizer.Stabilizer(list(HELD4)), "cycle"), lambda lib, s, c: lib.stabilizer_circuits.get_readout_circuit(s, c)),
     # fitters on fixed exact counts
     "fit3all": (lambda lib: (_chain3(lib), "all"), lambda lib, q, c: _fit(lib, q, c)),
     "fit3lin": (lambda lib: (_chain3(lib), "linear"), lambda lib, q, c: _fit(lib, q, c)),
@@ -339,7 +339,7 @@ HELD_CALLS = {
     "h_readout_unsupported": lambda lib, s: lib.stabilizer_circuits.get_readout_circuit(s, "ladder"),
     "h_measure_mismatch": lambda lib, s: lib.tomography.stabilizer_measurement_circuit(_chain3(lib), s, "linear"),
     "h_predicates": lambda lib, s: [bool(s.validate()), [bool(s.is_qubit_entangled(q)) for q in range(s.num_qubits)],
-                                    bool(s.is_equivalent_mod_phase(lib.stabilizer.Stabilizer(HELD4)))],
+                                    bool(s.is_equivalent_mod_phase(lib.stabilizer.Stabilizer(list(HELD4))))],
 }
 HELD_MUTATIONS = ("rotate_q0", "flip_sign", "swap_generators")
 
